@@ -220,7 +220,7 @@ static void op_c08_sweep(Exec& x, const Json& op, int)
 		std::set<uint32_t> badpar(pr.bad_parity_pos.begin(), pr.bad_parity_pos.end());
 		for (auto h : hit) {
 			if (stripe_healthy_synced(la->c, sm, h->pos)) {
-				if (badpar.count(h->pos)) x.violation("C08", "failed-io-recorded-as-synced", when + strf(": stripe %u is recorded as synced and not bad, and its parity is wrong", h->pos), focus);
+				if (badpar.count(h->pos)) x.violation("C08", "failed-io-recorded-as-synced", when + strf(": stripe %u (failed %s %s@%lld) is recorded as synced and not bad, and its parity is wrong", h->pos, h->opc == OPC_PREAD ? "read of" : "write of", h->rel.c_str(), (long long)h->off), focus);
 				else if (!is_scrub && h->parity && h->opc == OPC_PWRITE) x.probe("c08.failed_write_but_parity_right");
 				else if (is_scrub || !h->parity) x.violation("C08", "failed-read-recorded-as-healthy", when + strf(": stripe %u is recorded as synced and not marked bad although its %s could not be read", h->pos, h->parity ? "parity" : "data"), focus);
 			} else
